@@ -130,6 +130,16 @@ def main():
                 res["check_%s_err" % tier] = (r.stdout + r.stderr)[-1500:]
             if r.returncode == 1:
                 break
+        # a change written against one property may be out of reach of that property's check by its very
+        # quantifier (e.g. a cancellation race against the sequential-history property C01) and belong to
+        # other properties' checks: seeded/also_caught_by.json names them, and they are run here as well
+        also_name = os.environ.get("MUT_KEEP_NAME") or (os.path.basename(os.path.dirname(os.path.dirname(mdir.rstrip("/")))) + "-" + os.environ.get("MUT_PREFIX", "") + os.path.basename(mdir.rstrip("/")))
+        alsop = "/verif/seeded/also_caught_by.json"
+        if os.path.exists(alsop) and not any(res.get("check_%s_exit" % t) == 1 for t in tiers):
+            for other in json.load(open(alsop)).get(also_name, []):
+                r = subprocess.run(["/verif/check", other, "quick"], env=dict(ENV, VERIF_REPO=wt), capture_output=True, text=True, cwd="/verif")
+                lines = [l for l in r.stdout.splitlines() if l.startswith(("VIOLATION", "  kind="))]
+                res.setdefault("also", {})[other] = {"exit": r.returncode, "output": lines[:2]}
     finally:
         subprocess.run(["git", "-C", "/repo", "worktree", "remove", "--force", wt], capture_output=True)
         shutil.rmtree(wt, ignore_errors=True)
@@ -160,6 +170,11 @@ def main():
                 "ran": ["python3 tools/mutcheck.py %s %s %s" % (mdir, prop, " ".join(tiers))],
                 "check_result": {t: {"exit": res.get("check_%s_exit" % t), "seconds": res.get("check_%s_s" % t), "output": res.get("check_%s_out" % t)} for t in tiers if ("check_%s_exit" % t) in res},
                 "detected_by": ("./check %s %s" % (prop, caught[0])) if caught else None}
+        if res.get("also"):
+            meta["also_checked"] = res["also"]
+            hits = ["./check %s quick" % o for o, v in res["also"].items() if v["exit"] == 1]
+            if hits and not caught:
+                meta["detected_by"] = ", ".join(hits) + " (not by ./check %s: see DESIGN.md section 12)" % prop
         json.dump(meta, open(os.path.join(d, "meta.json"), "w"), indent=1)
 
 main()
